@@ -17,8 +17,20 @@ def generate(rng, n, tier, stats):
         nd = rng.choice([1, 2, 3, 3, 4, 4, 4])
         a = rand_array(rng, stats=stats, ndim=nd, minlen=1, maxlen=3, attrs=rng.random() < 0.4, dtype=rng.choice(['f', 'i']))
         dims = a['dims']
-        fam = rng.choice(['flatten', 'flatten', 'roundtrip', 'reshape', 'reshape', 'reduce_vs_flatten'])
+        fam = rng.choice(['flatten', 'flatten', 'roundtrip', 'reshape', 'reshape', 'reduce_vs_flatten', 'two_groups'])
         stats['family'][fam] += 1
+        if fam == 'two_groups':
+            # two grouped axes alive at once, then unflatten() / reshape back to plain dimensions
+            if nd < 3: continue
+            perm = list(range(nd)); rng.shuffle(perm)
+            cut = rng.randint(1, nd - 1) if nd < 4 else 2
+            g1, g2 = [dims[i] for i in perm[:cut]], [dims[i] for i in perm[cut:]]
+            if rng.random() < 0.5:
+                cases.append({'ins': [a], 'ops': [['flatten', g1, 'tuple', None], ['flatten', g2, 'tuple', None], ['unflatten']], 'tag': 'roundtrip'})
+            else:
+                back = list(dims); rng.shuffle(back)
+                cases.append({'ins': [a], 'ops': [['reshape', [','.join(g1), ','.join(g2)], False], ['reshape', back, False]], 'tag': 'reshape_back', 'back': back})
+            continue
         k = rng.choice([x for x in (1, 2, 2, 3, 3, 3, 4) if x <= nd]); idx = rng.sample(range(nd), k)
         refs = [dims[i] if rng.random() < 0.7 else i for i in idx]
         form = rng.choice(['tuple', 'list', 'set', 'args']) if k > 1 or rng.random() < 0.5 else 'tuple'
@@ -113,6 +125,16 @@ def oracle(case, res):
             if not cell_eq(ac[tuple(cd[d] for d in adims)], v): return 'value at grouped position differs from the original at %r' % cd
         if r['attrs'] != obs['attrs']: return 'metadata lost'
         return None
+    if case.get('tag') == 'reshape_back':
+        if res[0] == 'err': return 'reshape into two groups and back raised %s' % res[1]
+        r = res[1]['v']
+        if obs_dims(r) != case['back']: return 'dims %r, expected %r' % (obs_dims(r), case['back'])
+        nm, rc = expand(r)
+        if any('members' in ax and ax['members'] for ax in r['axes']): return 'grouped axis left after reshaping back'
+        for c, v in rc.items():
+            cd = dict(zip(nm, c))
+            if not cell_eq(ac[tuple(cd[d] for d in adims)], v): return 'element moved: %r' % cd
+        return None if len(rc) == len(ac) else 'number of elements changed'
     if o[0] == 'reshape':
         target = o[1]
         flat = [p for t in target for p in t.split(',')]
